@@ -882,4 +882,126 @@ theorem specWord_sane (P : Params) (n : Name) : ∀ (h : List Item) (g : Nat) (a
     · exact wordStep_sane P n _ _ c h1
     · exact ih _ _ _ c h1
 
+/-! ### `watcher.entities` -/
+
+def wentsF (u c d w : Option Entity) : Option Entity :=
+  match u with
+  | some e => some e
+  | none => match c with
+    | some e => some e
+    | none => match d with
+      | some _ => none
+      | none => w
+
+theorem notify_wents (P : Params) (wents : Map Name Entity) (d : Diff)
+    (wd : d.deleted.WF) (wc : d.created.WF) (wu : d.updated.WF) (n : Name) :
+    (notify P wents d).1.get n =
+      wentsF ((d.updated.get n).filter P.passes) ((d.created.get n).filter P.passes)
+        ((d.deleted.get n).filter P.passes) (wents.get n) := by
+  have hev : ∀ (m : Map Name Entity), m.WF →
+      Map.get (m.filter (fun e => P.passes e.2)) n = (m.get n).filter P.passes :=
+    fun m mwf => Map.get_filter_val mwf (fun e => P.passes e.2) n
+  simp only [notify]
+  rw [foldl_proj (fun (m : Map Name Entity) (e : Name × Entity) => m.set e.1 e.2) (fun m => m.get n) n
+      (fun e _ => some e) (fun st m b h => by have h' : ¬ n = m := fun e => h e.symm; simp [Map.get_set, h'])
+      (fun st b => by simp [Map.get_set]) _ (Map.wf_filter _ wu),
+    foldl_proj (fun (m : Map Name Entity) (e : Name × Entity) => m.set e.1 e.2) (fun m => m.get n) n
+      (fun e _ => some e) (fun st m b h => by have h' : ¬ n = m := fun e => h e.symm; simp [Map.get_set, h'])
+      (fun st b => by simp [Map.get_set]) _ (Map.wf_filter _ wc),
+    foldl_proj (fun (m : Map Name Entity) (e : Name × Entity) => m.del e.1) (fun m => m.get n) n
+      (fun _ _ => none) (fun st m b h => by have h' : ¬ n = m := fun e => h e.symm; simp [Map.get_del, h'])
+      (fun st b => by simp [Map.get_del]) _ (Map.wf_filter _ wd),
+    hev _ wu, hev _ wc, hev _ wd]
+  unfold wentsF
+  cases Option.filter P.passes (d.updated.get n) <;> cases Option.filter P.passes (d.created.get n) <;>
+    cases Option.filter P.passes (d.deleted.get n) <;> rfl
+
+theorem wents_snap (P : Params) (g : Nat) (old : Option Entity) (c : Option (Option (Kind × Body))) :
+    wentsF ((diffAt g old c).2.2.2.filter P.passes) ((diffAt g old c).2.2.1.filter P.passes)
+      ((diffAt g old c).2.1.filter P.passes) (view P true old) = view P true (diffAt g old c).1 := by
+  cases c with
+  | none => cases old with
+    | none => simp [diffAt, wentsF, view, Option.filter]
+    | some p => by_cases hp : P.passes p <;> simp [diffAt, wentsF, view, Option.filter, hp]
+  | some y =>
+    cases y with
+    | none => cases old with
+      | none => simp [diffAt, diffF, wentsF, view, Option.filter]
+      | some p => by_cases hp : P.passes p <;> simp [diffAt, diffF, wentsF, view, Option.filter, hp]
+    | some kb =>
+      obtain ⟨k, b⟩ := kb
+      cases old with
+      | none => by_cases he : P.passes ⟨g, k, b⟩ <;> simp [diffAt, diffF, wentsF, view, Option.filter, he]
+      | some p =>
+        by_cases hsame : p.kind = k ∧ p.body = b
+        · by_cases hp : P.passes p <;> simp [diffAt, diffF, wentsF, view, Option.filter, hp, hsame]
+        · by_cases hk : p.kind = k
+          · have hpe : P.passes p = P.passes ⟨g, k, b⟩ := by simp [Params.passes, hk]
+            have hb : ¬ p.body = b := fun e => hsame ⟨hk, e⟩
+            by_cases he : P.passes ⟨g, k, b⟩
+            · have hp : P.passes p = true := by rw [hpe]; exact he
+              simp [diffAt, diffF, wentsF, view, Option.filter, hp, he, hb, hk]
+            · have hp : ¬ P.passes p = true := by rw [hpe]; exact he
+              simp [diffAt, diffF, wentsF, view, Option.filter, hp, he, hb, hk]
+          · by_cases hp : P.passes p <;> by_cases he : P.passes ⟨g, k, b⟩ <;>
+              simp [diffAt, diffF, wentsF, view, Option.filter, hp, he, hsame, hk]
+
+/-- `watcher.entities` is the watcher's view of the registry. -/
+def WInv (P : Params) (s : Sys) : Prop :=
+  ∀ n, s.w.wents.get n = view P s.w.attached (s.ents.get n)
+
+theorem step_winv (P : Params) (s : Sys) (inv : Inv P s) (winv : WInv P s) (it : Item) (wf : it.WF) :
+    WInv P (step P s it) := by
+  intro n
+  cases it with
+  | snap cfg =>
+    have dwf := diff_wf s.g s.ents cfg inv.wf
+    have dat := diff_at s.g s.ents cfg wf n
+    simp only [step]
+    by_cases hatt : s.w.attached = true
+    · have e1 : (stepW P s.t s.w (diff s.g s.ents cfg)).wents = (notify P s.w.wents (diff s.g s.ents cfg)).1 := by
+        unfold stepW; simp [hatt]
+      have e0 : (stepW P s.t s.w (diff s.g s.ents cfg)).attached = true := by
+        unfold stepW; simp [hatt]
+      rw [e1, e0, notify_wents P _ _ dwf.2.1 dwf.2.2.1 dwf.2.2.2 n, winv n, hatt]
+      have e2 : (diff s.g s.ents cfg).deleted.get n = (diffAt s.g (s.ents.get n) (cfg.get n)).2.1 := by
+        have := congrArg (fun q : Quad => q.2.1) dat; simpa [Diff.at] using this
+      have e3 : (diff s.g s.ents cfg).created.get n = (diffAt s.g (s.ents.get n) (cfg.get n)).2.2.1 := by
+        have := congrArg (fun q : Quad => q.2.2.1) dat; simpa [Diff.at] using this
+      have e4 : (diff s.g s.ents cfg).updated.get n = (diffAt s.g (s.ents.get n) (cfg.get n)).2.2.2 := by
+        have := congrArg (fun q : Quad => q.2.2.2) dat; simpa [Diff.at] using this
+      have e5 : (diff s.g s.ents cfg).ents.get n = (diffAt s.g (s.ents.get n) (cfg.get n)).1 := by
+        have := congrArg (fun q : Quad => q.1) dat; simpa [Diff.at] using this
+      rw [e2, e3, e4, e5]
+      exact wents_snap P s.g (s.ents.get n) (cfg.get n)
+    · have hf : s.w.attached = false := by simpa using hatt
+      have : stepW P s.t s.w (diff s.g s.ents cfg) = s.w := by unfold stepW; simp [hf]
+      rw [this, winv n, hf]
+      simp [view]
+  | attach =>
+    simp only [step]
+    by_cases hatt : s.w.attached = true
+    · have : attachW P s.t s.ents s.w = s.w := by unfold attachW; simp [hatt]
+      rw [this]; exact winv n
+    · have hf : s.w.attached = false := by simpa using hatt
+      unfold attachW
+      simp only [hf, Bool.false_eq_true, if_false, attachEvent]
+      rw [Map.get_filter_val inv.wf (fun e => P.passes e.2) n]
+      simp [view]
+
+theorem run_winv (P : Params) (ok : P.OrderOK) : ∀ (h : List Item) (s : Sys), Inv P s → WInv P s →
+    HistWF h → WInv P (run P s h) := by
+  intro h
+  induction h with
+  | nil => intro s _ w _; exact w
+  | cons it rest ih =>
+    intro s inv winv hwf
+    have wit : it.WF := hwf it List.mem_cons_self
+    have wrest : HistWF rest := fun x hx => hwf x (List.mem_cons_of_mem _ hx)
+    rw [run_cons]
+    exact ih _ (step_inv P ok s inv it wit) (step_winv P s inv winv it wit) wrest
+
+theorem winv_init (P : Params) : WInv P Sys.init := by
+  intro n; simp [Sys.init, view]
+
 end EgVerif.Lifecycle
